@@ -19,7 +19,8 @@ ES == {<<"B3", <<>>>>,
        <<"B4", <<<<5, 13, 20, 3, 4>>>>>>,                       \* the second debt bank agrees on tag 5 with other weights
        <<"B4", <<>>>>}
 RP == {<<"B1", [op_state |-> 2]>>, <<"B1", [op_state |-> 1]>>, <<"B1", [init_limit |-> 100]>>, <<"B1", [init_limit |-> 0]>>}
-BP == {<<"A1", "B3">>, <<"A1", "B4">>}
+\* B4 and B7 are plain debt banks (no e-mode entries) whose keys lie above / below B3's: the account's debts are read in either order
+BP == {<<"A1", "B3">>, <<"A1", "B4">>, <<"A1", "B7">>}
 LiqR == {<<"A2", "A1", "B1", "B3">>}
 NoTuplesR == {}
 \* the "flat" instance (spot = time-weighted price, zero confidence): e-mode entry sets, the borrow boundary, then liquidation attempts
